@@ -560,7 +560,7 @@ func ruleRawTypes(w *World, r *Report, pkg *ssa.Package) {
 					bad = "constant " + x.String()
 				}
 			case *ssa.Call:
-				if sf := staticCallee(x); sf == nil || sf.Name() != "raw" {
+				if sf := staticCallee(x); sf == nil || !w.fnIs(sf, "raw") {
 					bad = "result of " + calleeFullName(x)
 				}
 			default:
